@@ -56,6 +56,8 @@ struct Model {
 static void run_seq(Rng &r)
 {
     size_t maxmsg = (size_t)(4 * r.range(5, 12));      // 20..48
+    // some links carry larger messages: blob length fields with bytes >= 0x80, two-byte lengths
+    if(r.chance(0.15)) { maxmsg = (size_t)(4 * r.range(40, 180)); count("seq.large_maxmsg"); }
     size_t n = (size_t)r.range(2, 6);
     rtosc::ThreadLink tl(maxmsg, n);
     Model md(maxmsg, n);
